@@ -248,6 +248,37 @@ class Program:
         # star imports (cnvlib/__init__: from .commands import *): not needed
         return None
 
+    def has_star_import(self, modname, name=None):
+        """True when `name` could be bound in the module by something resolve_name does not see: a star import, or any
+        binding construct anywhere in the module's text (conservative: function-local bindings count as well)"""
+        m = self.modules.get(modname)
+        if m is None:
+            return True
+        cache = getattr(m, "_bound_names", None)
+        if cache is None:
+            cache = set()
+            star = False
+            for n in ast.walk(m.tree):
+                if isinstance(n, ast.Name) and isinstance(n.ctx, (ast.Store, ast.Del)):
+                    cache.add(n.id)
+                elif isinstance(n, (ast.FunctionDef, ast.AsyncFunctionDef, ast.ClassDef)):
+                    cache.add(n.name)
+                elif isinstance(n, (ast.Import, ast.ImportFrom)):
+                    for a in n.names:
+                        if a.name == "*":
+                            star = True
+                        cache.add((a.asname or a.name).split(".")[0])
+                elif isinstance(n, ast.ExceptHandler) and n.name:
+                    cache.add(n.name)
+                elif isinstance(n, ast.arg):
+                    cache.add(n.arg)
+                elif isinstance(n, ast.Global):
+                    cache.update(n.names)
+            if star:
+                cache.add("*")
+            m._bound_names = cache
+        return "*" in cache or (name is not None and name in cache)
+
     def resolve_attr(self, modname, expr):
         """Resolve `a.b.c` where `a` is a module alias; same return convention."""
         if isinstance(expr, ast.Name):
